@@ -51,6 +51,10 @@ pub struct C05 {
     /// received item i - window (window 1: strictly one at a time)
     #[serde(default)]
     pub closed_loop: Option<usize>,
+    /// positional consumption: call c of the consumer is next() if skips[c % len] == 0 and
+    /// nth(skips[c % len] - 1) otherwise (what skip(), step_by() and nth() do); empty = next() only
+    #[serde(default)]
+    pub skips: Vec<u8>,
 }
 
 pub fn f_val(x: u64) -> u64 {
@@ -237,7 +241,17 @@ impl Scenario for C05 {
         // only for the plain pipe: with a buffer or a second stage in between, "seen by the
         // consumer" lags behind by construction
         let closed_loop = if shape == Shape::Pipe && rng.chance(0.15) { Some(rng.usize(1, 3)) } else { None };
-        C05 { run_seed, mode: SMode::draw(&mut rng), n, w, shape, fn_delay, src_delay, stall, hinted, poll_after_end, closed_loop }
+        // not with a closed loop: nth(k) cannot report the items it skips, the gate would never open
+        let skips: Vec<u8> = if closed_loop.is_none() && rng.chance(0.12) {
+            match rng.below(4) {
+                0 => vec![rng.range(1, 9) as u8],                    // step_by
+                1 => vec![rng.range(2, (n as u64 + 2).min(40)) as u8, 0], // skip(k) then next()
+                _ => (0..rng.usize(1, 4)).map(|_| rng.below(5) as u8).collect(),
+            }
+        } else {
+            vec![]
+        };
+        C05 { run_seed, mode: SMode::draw(&mut rng), n, w, shape, fn_delay, src_delay, stall, hinted, poll_after_end, closed_loop, skips }
     }
 
     fn run_seed(&self) -> u64 {
@@ -298,6 +312,16 @@ impl Scenario for C05 {
             let mut c = self.clone();
             c.closed_loop = None;
             v.push(c);
+        }
+        if !self.skips.is_empty() {
+            let mut c = self.clone();
+            c.skips = vec![];
+            v.push(c);
+            if self.skips.len() > 1 {
+                let mut c = self.clone();
+                c.skips.truncate(1);
+                v.push(c);
+            }
         }
         if self.mode != SMode::Uniform {
             let mut c = self.clone();
@@ -371,8 +395,14 @@ impl Scenario for C05 {
                 }
             };
             let mut k = 0usize;
-            while let Some(v) = it.next() {
-                rt::log(Kind::Recv, k as u64, v);
+            let mut pos = 0usize; // position in the stream of the next item
+            loop {
+                let s = if sc.skips.is_empty() { 0 } else { sc.skips[k % sc.skips.len()] as usize };
+                let got = if s == 0 { it.next() } else { it.nth(s - 1) };
+                let Some(v) = got else { break };
+                pos += s.saturating_sub(1);
+                rt::log(Kind::Recv, pos as u64, v);
+                pos += 1;
                 res2.lock().unwrap().push(v);
                 seen.advance();
                 let d = sc.stall.get(k).copied().unwrap_or(0);
@@ -389,8 +419,9 @@ impl Scenario for C05 {
                 // an exhausted iterator stays exhausted (and must not block)
                 for _ in 0..2 {
                     if let Some(v) = it.next() {
-                        rt::log(Kind::Recv, k as u64, v);
+                        rt::log(Kind::Recv, pos as u64, v);
                         res2.lock().unwrap().push(v);
+                        pos += 1;
                         k += 1;
                     }
                 }
@@ -457,7 +488,23 @@ impl C05 {
                 );
             }
         }
-        let exp = self.expected();
+        let mut exp = self.expected();
+        if !self.skips.is_empty() {
+            // the same positional calls on the sequential result
+            let mut it = exp.clone().into_iter();
+            let mut sel = vec![];
+            let mut c = 0usize;
+            loop {
+                let s = self.skips[c % self.skips.len()] as usize;
+                match if s == 0 { it.next() } else { it.nth(s - 1) } {
+                    Some(v) => sel.push(v),
+                    None => break,
+                }
+                c += 1;
+            }
+            exp = sel;
+            stats.probe("runs_with_positional_consumption_nth", 1);
+        }
         if got != exp {
             // classify: lost / duplicated / reordered / wrong value
             let class = if got.len() < exp.len() && got.iter().all(|x| exp.contains(x)) {
@@ -519,7 +566,7 @@ impl C05 {
                     in_flight_max = in_flight_max.max(done - recvd);
                 }
                 Kind::Recv => {
-                    recvd += 1;
+                    recvd = if matches!(self.shape, Shape::Inference(..)) { recvd + 1 } else { e.a as i64 + 1 };
                     let i = e.a as usize;
                     if !matches!(self.shape, Shape::Inference(..)) && i < n && fn_end_step[i] == u64::MAX {
                         return v("order:recv-before-processed", format!("item {i} received before f({i}) finished"));
